@@ -44,6 +44,250 @@ def a1(F, rep):
     return res
 
 
+_VEC_READ = re.compile(r"(Vec::(new|with_capacity|len|is_empty|iter|as_slice|capacity|clone)|Deref>?::deref|Index>?::index|IntoIterator>?::into_iter|"
+                       r"slice::(.*::)?(iter|len|is_empty)$|iter::.*::(sum|map|fold|count)$|Debug>?::fmt|fmt::Arguments|Argument|core::fmt::rt::)")
+_VEC_PUSH = re.compile(r"Vec::push$")
+_W = {"u8": 8, "u16": 16, "u32": 32, "u64": 64, "usize": 64}
+
+
+def _guarded_ne(b, bb, opnd, K):
+    """Is the call in block bb dominated by the `!=` edge of a test of this value (compared on its canonical descriptor,
+    which sees through copies and casts) against K?  Narrowing casts between the tested and the used value are accepted
+    only when the value was at most that wide somewhere earlier in its history."""
+    want = flow.describe(b, opnd)
+    hit = False
+    for sb in sorted(b.normal_blocks()):
+        t = b.term(sb)
+        if t["k"] != "switch" or len(t["targets"]) != 1:
+            continue
+        p = op_place(t["d"])
+        dd = b.single_def(p["l"]) if p is not None and not p["p"] else None
+        if not (dd and dd[2] == "assign" and dd[3]["k"] == "binop" and dd[3]["op"] in ("Eq", "Ne")):
+            continue
+        l, r = dd[3]["l"], dd[3]["r"]
+        kl, kr = flow.const_eval(b, l), flow.const_eval(b, r)
+        if kr == K and kl is None:
+            x = l
+        elif kl == K and kr is None:
+            x = r
+        else:
+            continue
+        if flow.describe(b, x) != want:
+            continue
+        zero_t, other = t["targets"][0][1], t["otherwise"]      # switch on the bool: 0 -> comparison false
+        ne_edge = (sb, zero_t) if dd[3]["op"] == "Eq" else (sb, other)
+        if b.edge_dominates(ne_edge[0], ne_edge[1], bb):
+            hit = True
+    if not hit:
+        return False, "no dominating test `%s != %d`" % (want, K)
+    # cast history of the used value
+    widths, cur, hops = [], opnd, 0
+    while hops < 12:
+        hops += 1
+        p = op_place(cur)
+        if p is None or p["p"]:
+            break
+        ty = b.local_ty(p["l"])
+        widths.append(_W.get(ty))
+        d = b.single_def(p["l"])
+        if not d or d[2] != "assign" or d[3]["k"] not in ("use", "cast"):
+            break
+        cur = d[3]["op"]
+    widths = [w for w in widths]          # used value first, origin last
+    for i in range(len(widths) - 1):
+        w_to, w_from = widths[i], widths[i + 1]
+        if w_to is None or w_from is None:
+            return False, "cast through a non-integer or signed type"
+        if w_to < w_from and not any(w is not None and w <= w_to for w in widths[i + 2:]):
+            return False, "narrowing cast to %d bits of a value that was never that narrow" % w_to
+    return True, "dominated by `%s != %d`" % (want, K)
+
+
+def _elements_ne(F, adt, field, K):
+    """Every element ever stored in <adt>.<field> (a Vec) differs from K: every construction site of the struct takes the
+    field from a local Vec that is only created empty and pushed to, each push is guarded `value != K`, and nobody mutates
+    the field through the struct afterwards."""
+    notes, n_cons, n_push = [], 0, 0
+    from .c13 import _roots_of
+    for name, b in sorted(F.bodies.items()):
+        for bb, t in b.calls():
+            cn = strip_generics(callee_def(t))
+            if t["args"] and re.search(r"\.%s\b" % re.escape(field), flow.describe(b, t["args"][0])) and re.search(r"Vec::|slice::", cn) and not _VEC_READ.search(cn):
+                return False, "%s mutates .%s through the struct (%s)" % (name, field, cn), 0, 0
+        for bb in sorted(b.normal_blocks()):
+            for s in b.stmts(bb):
+                r = s.get("r") or {}
+                if s.get("k") != "assign" or r.get("k") != "agg" or r.get("adt") != adt:
+                    continue
+                n_cons += 1
+                op = r["ops"][r["fields"].index(field)]
+                roots = set()
+                _roots_of(b, op, roots, set())
+                if len(roots) != 1:
+                    return False, "%s: field source is not a single local vector" % name, n_cons, n_push
+                V = next(iter(roots))
+                for cb, ct in b.calls():
+                    if not ct["args"]:
+                        continue
+                    rs = set()
+                    _roots_of(b, ct["args"][0], rs, set())
+                    cn = strip_generics(callee_def(ct))
+                    if V not in rs:
+                        # the vector handed to somebody else by &mut ?
+                        for a in ct["args"][1:]:
+                            rs2 = set()
+                            _roots_of(b, a, rs2, set())
+                            if V in rs2 and "&mut" in b.local_ty(op_place(a)["l"]) if op_place(a) else False:
+                                return False, "%s: vector escapes by &mut into %s" % (name, cn), n_cons, n_push
+                        continue
+                    if _VEC_PUSH.search(cn):
+                        n_push += 1
+                        ok, why = _guarded_ne(b, cb, ct["args"][1], K)
+                        if not ok:
+                            return False, "%s (%s): push of an unguarded value: %s" % (name.replace("preflate_rs::", ""), b.where(cb), why), n_cons, n_push
+                    elif not _VEC_READ.search(cn):
+                        return False, "%s: vector used by %s (not create/push/read)" % (name, cn), n_cons, n_push
+    if n_cons == 0:
+        return False, "no construction site of %s found" % adt, 0, 0
+    return True, "%d construction site(s), %d guarded push(es)" % (n_cons, n_push), n_cons, n_push
+
+
+def a1t(F, rep, res):
+    """Terminator discipline.  Where the reader ends a repeated item on a decoded value K (`loop { v = read(); if v == K
+    { break } .. }`), the writer's items must never be K: otherwise expand writes a list that recreate cuts short."""
+    n_term = 0
+    for rf in RSCOPE:
+        b = F.body(rf)
+        for bb in sorted(b.normal_blocks()):
+            t = b.term(bb)
+            if t["k"] != "switch" or t.get("exp"):
+                continue
+            m = re.match(r"^(Eq|Ne)\(branch\((?:preflate_rs::)?preflate_container::read_varint\(.*\)\) as Continue\.0, K(\d+)\)$", flow.describe(b, t["d"]))
+            if not m:
+                continue
+            succs = [x for _, x in t["targets"]] + [t["otherwise"]]
+            cont = [s for s in succs if bb in b.reachable_from(s)]
+            if not cont or len(cont) == len(succs):
+                continue
+            K = int(m.group(2))
+            n_term += 1
+            short = rf.replace("preflate_rs::", "")
+            wsites = sorted({(wl, ww) for wl, rl, ww, rw in res["matched"] if rl[0] == "varint" and rw.split(" (")[0] == short}, key=str)
+            if not wsites:
+                rep.add("A1t", "terminator:%s:K%d" % (short, K), False, b.where(bb), "no writer site is paired with this reader loop")
+                continue
+            for wl, ww in wsites:
+                wfn = "preflate_rs::" + ww.split(" (")[0]
+                line = int(ww.split(":")[-1].rstrip(")"))
+                wb = F.body(wfn)
+                if wl[1] is not None:
+                    rep.add("A1t", "item-not-terminator:%s:const%s" % (ww.split(" (")[0], wl[1]), True, ww, "constant item %s (the terminator itself or a value that differs from it)" % (wl[1],))
+                    continue
+                calls = [(cb, ct) for cb, ct in wb.calls() if strip_generics(callee_def(ct)).endswith("write_varint") and ct.get("line") == line]
+                if len(calls) != 1:
+                    rep.add("A1t", "item-not-terminator:%s" % ww.split(" (")[0], False, ww, "UNRECOGNISED-IDIOM: writer site not identified (%d candidates)" % len(calls))
+                    continue
+                cb, ct = calls[0]
+                ok, why = _guarded_ne(wb, cb, ct["args"][1], K)
+                if not ok:
+                    d = flow.describe(wb, ct["args"][1])
+                    m2 = re.match(r"^next\(into_iter\(iter\(deref\(arg<&(.*)>\.(\w+)\)\)\)\) as Some\.0$", d)
+                    if m2:
+                        ok, why, _, _ = _elements_ne(F, m2.group(1), m2.group(2), K)
+                        why = "items are the elements of %s.%s: %s" % (m2.group(1).split("::")[-1], m2.group(2), why)
+                    else:
+                        why = "value %s: %s" % (d, why)
+                rep.add("A1t", "item-not-terminator:%s" % ww.split(" (")[0], ok, ww,
+                        "reader %s ends the list on %d; %s" % (short, K, why))
+    rep.floor("A1t", "reader-terminator-loops", n_term, 1)
+
+
+def a8(F, rep):
+    """parse_idat walks the IDAT chunks with three accumulators that describe the same prefix of the file: the collected
+    payload, the list of chunk sizes and the byte position.  They are only consistent when every way of leaving the loop
+    without an error has passed, in the current iteration, either all of their updates or none (a `break` between two of
+    them hands recreate a payload that its size list does not account for)."""
+    from .c13 import _roots_of
+    from .. import err
+    name = "preflate_rs::idat_parse::parse_idat"
+    b = F.body(name)
+    where = "%s:%s" % (b.file, b.line)
+    mut = re.compile(r"Vec::(push|extend_from_slice|extend|append|insert|resize|truncate)$|Extend>?::extend$")
+    tainted_cache = {}
+
+    def feeds_result(l):
+        if l not in tainted_cache:
+            tainted_cache[l] = 0 in flow.taint(b, {l})
+        return tainted_cache[l]
+    calls = []
+    for bb, t in b.calls():
+        if mut.search(strip_generics(callee_def(t))) and t["args"]:
+            rs = set()
+            _roots_of(b, t["args"][0], rs, set())
+            rs = {l for l in rs if feeds_result(l)}
+            if rs:
+                calls.append((bb, "%s(%s)" % (strip_generics(callee_def(t)).split("::")[-1], ",".join(sorted(b.locals[l].get("name") or "_%d" % l for l in rs)))))
+    if not calls:
+        rep.add("A8", "idat-accumulators", False, where, "ANCHOR-MISSING: no accumulator update found in parse_idat")
+        return
+    anchor = calls[-1][0]
+    L = {x for x in b.normal_blocks() if anchor in b.reachable_from(x) and x in b.reachable_from(anchor)}
+    if anchor not in L or len(L) < 2:
+        rep.add("A8", "idat-accumulators", False, where, "UNRECOGNISED-IDIOM: the accumulator updates are not inside a loop")
+        return
+    heads = [x for x in L if any(p not in L for p in b.pred(x))]
+    if len(heads) != 1:
+        rep.add("A8", "idat-accumulators", False, where, "UNRECOGNISED-IDIOM: loop with %d entry blocks" % len(heads))
+        return
+    h = heads[0]
+    sites = [(bb, what) for bb, what in calls if bb in L]
+    # scalar accumulators: integer locals assigned before the loop and again inside it that feed the result
+    for l in range(1, len(b.locals)):
+        if not re.match(r"^[ui](8|16|32|64|size)$", b.local_ty(l)) or not b.locals[l].get("name"):
+            continue
+        ds = b.defs(l)
+        inside = [d for d in ds if d[0] in L]
+        outside = [d for d in ds if d[0] not in L and d[2] != "arg"]
+        if inside and outside and feeds_result(l):
+            for d in inside:
+                sites.append((d[0], "%s=" % b.locals[l]["name"]))
+    rep.floor("A8", "accumulator-updates-in-loop", len(sites), 3)
+
+    def reach(src, dst, avoid):
+        """dst reachable from src inside one iteration (no edge back into the header), not entering `avoid`."""
+        seen, st = set(), [src]
+        while st:
+            x = st.pop()
+            if x in seen or x in avoid or x not in L:
+                continue
+            seen.add(x)
+            if x == dst:
+                return True
+            for y in b.succ(x):
+                if y != h:
+                    st.append(y)
+        return dst in seen
+    producers = {bb for bb, _ in err.result_producers(b, F)}
+    bad = []
+    n_exit = 0
+    for x in sorted(L):
+        for y in b.succ(x):
+            if y in L:
+                continue
+            if not (producers & b.reachable_from(y)):
+                continue                      # this way out only ever reports an error
+            n_exit += 1
+            for a, wa in sites:
+                for c, wc in sites:
+                    if a == c:
+                        continue
+                    if reach(h, a, {c}) and reach(a, x, {c}):
+                        bad.append("leaving the loop at %s after %s but without %s" % (b.where(x), wa, wc))
+    rep.add("A8", "idat-accumulators-advance-together", not bad and n_exit >= 1, where,
+            "%d update sites %s, %d non-error exits: each exit has passed all of them or none in its iteration" % (len(sites), [w for _, w in sites], n_exit)
+            if not bad else "; ".join(sorted(set(bad))[:3]))
+
+
 def a2(F, rep):
     names = ["LITERAL_CHUNK", "DEFLATE_STREAM", "PNG_COMPRESSED"]
     vals = {}
@@ -106,7 +350,9 @@ def run(ctx, rep):
         "and the IDAT parser, and a reviewed table of explicit failure constructs under expand/recreate.")
     rep.trusted = ["reconstruction of an accepted stream is exact because the scanner verified it (A3) — run-time fact, not re-proved",
                    "std::io contracts of write_all/read_exact"]
-    a1(F, rep)
+    res = a1(F, rep)
+    a1t(F, rep, res)
+    a8(F, rep)
     a2(F, rep)
     a3(F, rep)
     from . import scan
